@@ -101,8 +101,13 @@ def acyclic(edges):
     return all(visit(n) for n in nodes)
 
 
-def judge(run, case, line, model_verdict, fmt="?"):
+def judge(run, case, line, model_verdict, fmt="?", errtext=""):
     """Returns (kind, what, signature) or None."""
+    if line.startswith("CRASH") and case.endswith(" 2") and "pc points to the zero page" in errtext:
+        # first use of a lazily validated attribute from several threads: one thread resets the
+        # revalidate hook (to its parent's, NULL) while another is about to call it
+        return ("impl", "call through a NULL revalidate hook while several threads touch a lazily validated "
+                "attribute for the first time (%s)" % line, "conc crash lazy-revalidate null-hook")
     if line.startswith("CRASH") or line == "NOT-RUN":
         return ("impl", "library crashes or hangs (%s) with threads on clones" % line,
                 "conc crash-or-hang " + ("timeout" if "timeout" in line else "signal"))
@@ -155,6 +160,7 @@ def judge(run, case, line, model_verdict, fmt="?"):
 
 
 RACE_CLASSES = [
+    ("elf-last-load", re.compile(r"find_closest_")),
     ("lazy-revalidate", re.compile(r"_revalidate|add_pfn_region|set_attr")),
     ("bitmap-errbuf", re.compile(r"err_clear|kdump_bmp_")),
     ("shared-inflight", re.compile(r"cache_entry_valid|get_inflight_entry|cache_insert|uncompress|memcpy|_read_page")),
@@ -303,7 +309,8 @@ def check(run):
                 run.sample({"case": l, "thread0_events": p["threads"][0][:160] + " ...", "summary": o.split(" | ")[-1]})
         else:
             run.note_case(l, True)
-        j = judge(run, l, o, verdicts[i], fmt=(cases[i][1].get("fmt", "?") if cases and isinstance(cases[i], tuple) else "?"))
+        j = judge(run, l, o, verdicts[i], fmt=(cases[i][1].get("fmt", "?") if cases and isinstance(cases[i], tuple) else "?"),
+                  errtext=crashes.get(i, ("", ""))[1])
         if j:
             kind, what, sig = j
             d = cases[i][1] if cases and isinstance(cases[i], tuple) else {}
@@ -329,6 +336,8 @@ def tsan_stage(run, lines):
         if exe is None:
             continue
         sel = [l for l in lines if l.startswith("R")][::5][:12]
+        # ELF: concurrent lookups through the last_load / last_vload shortcut, reads and page-map queries
+        sel += [re.sub(r" \d+( hot=\S+)?$", " 3", l) for l in lines if l.startswith("R") and "/e" in l][:4]
         # also first use of lazily validated attributes from all threads
         sel += [re.sub(r" \d+$", " 2", l) for l in sel[:4]]
         cf = run.casefile("conc-tsan.txt", sel)
